@@ -1,4 +1,8 @@
 """C11 - schema validity constraints."""
+import os
+
+# Root-module jobs that report a violation on the unchanged tree would be parked here (not registered); none at present.
+PENDING_V1 = []
 
 
 def register(prop, J):
@@ -11,7 +15,9 @@ def register(prop, J):
          jobs=[
              J("validity-v2", "v2", "codecprops", "^TestC11", checks=(1, 1), shards=(4, 8), prepare="prepare_codec",
                extra_pkgs=["dyn", "gendrv"], timeout=(900, 3000)),
-         ],
+             J("validity-v1", "v1", "codecprops", "^TestC11", checks=(1, 1), shards=(4, 8),
+               prepare="prepare_codec", extra_pkgs=["dyn", "gendrv"], timeout=(900, 3000)),
+         ] + (PENDING_V1 if os.environ.get("VERIF_PENDING_V1") else []),
          level_text="exhaustive enumeration of the small finite spaces the property quantifies over, against a legality predicate "
                     "written from the property text; legal partial updates must also have the protocol's patch/$set/$delete wire shape "
                     "(reference-parsed) and round-trip",
